@@ -295,7 +295,7 @@ func GenPlan(t *rapid.T, profile string, k Knobs) *Plan {
 	if k.Probes {
 		np := rapid.IntRange(1, max(6, k.ProbeMax)).Draw(t, "nprobes")
 		for j := 0; j < np; j++ {
-			a := Action{At: at("p_at", 0, p.Horizon-1), Inst: rapid.IntRange(0, n-1).Draw(t, "p_inst"),
+			a := Action{At: at("p_at", 0, p.Horizon-1), Inst: rapid.SampledFrom([]int{-2, -2, rapid.IntRange(0, n-1).Draw(t, "p_inst")}).Draw(t, "p_who"),
 				Kind: rapid.SampledFrom([]string{ActProbe, ActProbe, ActProbeDem}).Draw(t, "p_kind")}
 			switch rapid.IntRange(0, 5).Draw(t, "p_ctx") {
 			case 0:
@@ -317,7 +317,7 @@ func GenPlan(t *rapid.T, profile string, k Knobs) *Plan {
 			if a.At+off < 0 {
 				off = 0
 			}
-			p.Timeline = append(p.Timeline, Action{At: odd(a.At + off), Inst: rapid.IntRange(0, n-1).Draw(t, "pae_inst"),
+			p.Timeline = append(p.Timeline, Action{At: odd(a.At + off), Inst: rapid.SampledFrom([]int{-2, -2, rapid.IntRange(0, n-1).Draw(t, "pae_inst")}).Draw(t, "pae_who"),
 				Kind: rapid.SampledFrom([]string{ActProbe, ActProbe, ActProbeDem}).Draw(t, "pae_kind")})
 		}
 	}
